@@ -33,6 +33,7 @@ type Obligation struct {
 }
 
 type VC struct {
+	isQuant int
 	oblNames map[string]int
 	modElem map[string]bool
 	useSeq bool // byte-sequence facts are instantiated at slicing/append (contract flag "seq")
@@ -911,6 +912,33 @@ func (vc *VC) constGlobalTerm(pkgPath, name, sort string) string {
 		return fmt.Sprintf("(mk_iface (+ 900000 (- %s)) %s)", ref, ref)
 	}
 	return ref
+}
+
+// quantified: the contract of the function under verification has a quantified clause
+func (vc *VC) quantified() bool {
+	if vc.contract == nil {
+		return false
+	}
+	if vc.isQuant == 0 {
+		vc.isQuant = 1
+		has := func(cs []*Clause) bool {
+			for _, c := range cs {
+				if strings.Contains(c.Src, "forall") || strings.Contains(c.Src, "exists") {
+					return true
+				}
+			}
+			return false
+		}
+		if has(vc.contract.Requires) || has(vc.contract.Ensures) {
+			vc.isQuant = 2
+		}
+		for _, l := range vc.contract.Loops {
+			if has(l.Invariants) {
+				vc.isQuant = 2
+			}
+		}
+	}
+	return vc.isQuant == 2
 }
 
 // slAt: element access function used inside quantified contract clauses.
